@@ -143,6 +143,14 @@ class Sym:
                     if t1 != t2:
                         c = self.expr(st.test, env, 0)
                         guards.append(mknot(c) if t1 else c)
+                        rest = self._exit_cond(st.orelse if t1 else st.body, dict(env))
+                        if rest is not None:
+                            guards.append(mknot(rest))
+                    elif not t1:
+                        # neither arm leaves as a whole, but something nested in them may:  if A: (if B: return)   guards with not (A and B)
+                        ec = self._exit_cond([st], dict(env))
+                        if ec is not None:
+                            guards.append(mknot(ec))
                 if isinstance(st, (ast.For, ast.While, ast.Try, ast.With)):
                     # interpret what is understood, mark the rest opaque
                     self._run([st] if not isinstance(st, (ast.Try, ast.With)) else list(st.body), env, 0, None)
@@ -430,6 +438,33 @@ class Sym:
             elif cur[0] not in ("loop", "filled"):
                 env[d] = ("filled", cur)         # inside the loop the object keeps its identity
 
+    def _exit_cond(self, stmts, env):
+        """condition under which the statements leave the enclosing block (return / raise / continue / break), None if they
+        never do; only ifs are looked into"""
+        parts = []
+        for st in stmts:
+            if isinstance(st, (ast.Return, ast.Raise, ast.Continue, ast.Break)):
+                parts.append(("const", True))
+                break
+            if isinstance(st, ast.If):
+                c = self.expr(st.test, env, 0)
+                a = self._exit_cond(st.body, dict(env))
+                b = self._exit_cond(st.orelse, dict(env))
+                if a is not None:
+                    parts.append(c if a == ("const", True) else _flat("and", c, a))
+                if b is not None:
+                    parts.append(mknot(c) if b == ("const", True) else _flat("and", mknot(c), b))
+            if isinstance(st, (ast.For, ast.While, ast.Try, ast.With)):
+                self._run([st] if not isinstance(st, (ast.Try, ast.With)) else list(st.body), env, 0, None)
+            else:
+                self._run([st], env, 0, None)
+        if not parts:
+            return None
+        out = parts[0]
+        for p_ in parts[1:]:
+            out = _flat("or", out, p_)
+        return out
+
     def _terminates(self, stmts):
         return bool(stmts) and isinstance(stmts[-1], (ast.Return, ast.Raise, ast.Continue, ast.Break))
 
@@ -635,6 +670,15 @@ class Sym:
                             v = self._inline(found[2], c, args, kws, depth, ci)
                             if v is not None:
                                 return v
+                    if base[0] == "self" and len(base) == 2 and self.self_cls is not None and self.inline and depth < MAX_INLINE:
+                        # method of a helper object the class keeps in a field that only ever holds instances of one package class
+                        from .callgraph import field_classes
+                        fc = field_classes(prog, self.self_cls).get(base[1])
+                        found = prog.lookup(fc[0], c.func.attr) if fc else None
+                        if found and found[0] == "method" and not found[2].is_static and not found[2].is_generator:
+                            v = self._inline(found[2], c, args, kws, depth, fc[0], self_value=base)
+                            if v is not None:
+                                return v
                     if base[0] != "class" and self.inline and depth < MAX_INLINE and c.func.attr.startswith("_") and not c.func.attr.startswith("__"):
                         # private method of another object: inlined when exactly one class of the package defines it
                         cands = [m for m in prog.functions.values() if m.cls is not None and m.name == c.func.attr]
@@ -796,21 +840,68 @@ def mkphi(test, a, b):
     if a == ("const", False) and b == ("const", True):
         return mknot(test)
     if test and test[0] == "not":
-        return ("phi", test[1], b, a)
+        return mkphi(test[1], b, a)
+    # a conditional whose one arm is a truth constant and whose other arm is a test is a conjunction / disjunction
+    is_test = lambda v: isinstance(v, tuple) and v and v[0] in ("cmp", "and", "or", "not")
+    if a == ("const", False) and is_test(b):
+        return _flat("and", mknot(test), b)
+    if b == ("const", False) and is_test(a):
+        return _flat("and", test, a)
+    if a == ("const", True) and is_test(b):
+        return _flat("or", test, b)
+    if b == ("const", True) and is_test(a):
+        return _flat("or", mknot(test), a)
     return ("phi", test, a, b)
 
 
-def simplify(x, oracle):
-    """resolve phi nodes whose test the oracle decides"""
+def _flat(tag, x, y):
+    xs = x[1:] if x[0] == tag else (x,)
+    ys = y[1:] if y[0] == tag else (y,)
+    return (tag,) + tuple(xs) + tuple(ys)
+
+
+def _learn(c, val, facts):
+    """record what the truth of condition c tells about its atoms"""
+    if not isinstance(c, tuple) or not c:
+        return
+    if c[0] == "not":
+        _learn(c[1], not val, facts)
+    elif c[0] in ("and", "or"):
+        decisive = (c[0] == "and") == val        # and=True / or=False: every component has that value
+        if decisive:
+            for y in c[1:]:
+                _learn(y, val, facts)
+        else:
+            orc = lambda a: facts.get(a)
+            rest = [y for y in c[1:] if eval_cond(y, orc) is not (not val)]
+            if len(rest) == 1:
+                _learn(rest[0], val, facts)
+    elif c[0] == "cmp" and c[1] in ("is not", "!="):
+        facts[("cmp", "is" if c[1] == "is not" else "==", c[2], c[3])] = not val
+    elif c[0] != "const":
+        facts[c] = val
+
+
+def simplify(x, oracle, facts=None):
+    """resolve phi nodes whose test is decided by the oracle or by the tests of the enclosing phi nodes (path-sensitive: the
+    same term denotes the same value within one evaluation)"""
     if not isinstance(x, tuple) or not x:
         return x
+    facts = facts if facts is not None else {}
     if x[0] == "phi":
-        r = eval_cond(x[1], oracle)
+        def orc(a):
+            r = oracle(a)
+            return r if r is not None else facts.get(a)
+        r = eval_cond(x[1], orc)
         if r is True:
-            return simplify(x[2], oracle)
+            return simplify(x[2], oracle, facts)
         if r is False:
-            return simplify(x[3], oracle)
-    return tuple(simplify(y, oracle) for y in x)
+            return simplify(x[3], oracle, facts)
+        ft, ff = dict(facts), dict(facts)
+        _learn(x[1], True, ft)
+        _learn(x[1], False, ff)
+        return ("phi", simplify(x[1], oracle, facts), simplify(x[2], oracle, ft), simplify(x[3], oracle, ff))
+    return tuple(simplify(y, oracle, facts) for y in x)
 
 
 def _norm_list(v):
